@@ -2,6 +2,7 @@
 import numpy as np
 from hypothesis import strategies as st
 
+from vlib import datasets as ds
 from vlib.refs import cseg_spec
 from vlib.runner import HarnessError, Sub
 
@@ -110,15 +111,41 @@ def cases(draw):
         "share": draw(st.booleans()),
         "uniform": draw(st.integers(0, 11)) == 0,
         "seed": draw(st.integers(0, 2 ** 32 - 1)),
+        # how the encoder object is obtained: constructed directly, or from
+        # the info through the factory every I/O path uses ("info": the
+        # scale's chunk size is this chunk's size; "info_border": this chunk
+        # is a border chunk of a scale with larger chunks)
+        "via": draw(st.sampled_from(["direct", "info", "info_border"])),
     }
 
 
-def check_chunk(ctx, chunk, block, dtype_name, what):
-    from neuroglancer_scripts.chunk_encoding import \
-        CompressedSegmentationEncoder
+def make_encoder(dtype_name, channels, block_arg, shape, via):
+    from neuroglancer_scripts import chunk_encoding
+    if via == "direct":
+        return chunk_encoding.CompressedSegmentationEncoder(
+            dtype_name, channels, block_arg)
+    X, Y, Z = shape[3], shape[2], shape[1]
+    cs = [X, Y, Z] if via == "info" else [X + 3, Y, 2 * Z]
+    scale = {"key": "s", "size": [X, Y, Z], "resolution": [1, 1, 1],
+             "voxel_offset": [0, 0, 0], "chunk_sizes": [cs],
+             "encoding": "compressed_segmentation",
+             "compressed_segmentation_block_size": block_arg}
+    info = {"type": "segmentation", "data_type": dtype_name,
+            "num_channels": channels, "scales": [scale]}
+    enc = chunk_encoding.get_encoder(info, scale)
+    if list(scale["compressed_segmentation_block_size"]) != list(block_arg):
+        raise AssertionError("get_encoder changed the block size in the info")
+    return enc
+
+
+def check_chunk(ctx, chunk, block, dtype_name, what, via="direct"):
     block_arg = list(block)
-    enc = CompressedSegmentationEncoder(dtype_name, chunk.shape[0],
-                                        block_arg)
+    try:
+        enc = make_encoder(dtype_name, chunk.shape[0], block_arg,
+                           chunk.shape, via)
+    except Exception as exc:
+        ctx.fail("no encoder for a valid scale (%s, via %s): %s: %s" % (
+            what, via, type(exc).__name__, exc))
     try:
         if chunk.size <= 4096:
             # the same encoder object is used for many chunks by the I/O
@@ -149,6 +176,22 @@ def check_chunk(ctx, chunk, block, dtype_name, what):
         ctx.fail("spec-only decoder recovers a different array: first "
                  "difference at (c,z,y,x)=%s: %d instead of %d (%s)" % (
                      bad, int(ref[tuple(bad)]), int(chunk[tuple(bad)]), what))
+    # the same values in another memory layout (views of a larger volume,
+    # re-oriented stacks, big-endian files) must encode the same labels
+    if chunk.size <= 4096:
+        for layout in ds.LAYOUTS[1:]:
+            try:
+                vbuf = bytes(enc.encode(ds.laid_out(chunk, layout)))
+                vref = cseg_spec.decode(vbuf, shape, block, chunk.dtype)
+            except Exception as exc:
+                ctx.fail("encoding a %s array failed or is not well formed: "
+                         "%s: %s (%s)" % (layout, type(exc).__name__, exc,
+                                          what))
+            if not np.array_equal(vref, chunk):
+                bad = np.argwhere(vref != chunk)[0].tolist()
+                ctx.fail("spec-only decoder recovers a different array from "
+                         "the encoding of a %s array: first difference at "
+                         "(c,z,y,x)=%s (%s)" % (layout, bad, what))
     X, Y, Z = shape[3], shape[2], shape[1]
     try:
         own = enc.decode(buf, (X, Y, Z))
@@ -170,7 +213,8 @@ def check_case(ctx, case):
     block = case["block"]
     what = "dtype=%s C=%d size=%s block=%s" % (
         case["dtype"], case["channels"], case["size"], block)
-    stats = check_chunk(ctx, chunk, block, case["dtype"], what)
+    stats = check_chunk(ctx, chunk, block, case["dtype"], what,
+                        case.get("via", "direct"))
     X, Y, Z = case["size"]
     nblocks = (-(-X // block[0])) * (-(-Y // block[1])) * (-(-Z // block[2]))
     padded = any(s % b for s, b in zip(case["size"], block))
@@ -185,6 +229,7 @@ def run(ctx, n):
         classes = ["bits%d" % b for b in stats]
         classes.append("cubic" if len(set(case["block"])) == 1 else "noncubic")
         classes.append(case["dtype"])
+        classes.append("via_" + case["via"])
         ctx.record(case, nt, classes)
     ctx.run_hypothesis(cases(), check, n)
 
